@@ -76,7 +76,7 @@ def family(tier, rnd):
     for where in ("guard", "method", "main"):
         for n in (3, 11, 30):
             P.append(deep_prog(n, where))
-        for big in ((2300,) if tier == "quick" else (1500, 2300, 4500, 12000)):
+        for big in ((2300,) if tier == "quick" else (1500, 2300, 4500)):
             P.append(deep_prog(30, where, big=big))
     # special sites: constructor, handler block faulting, method on object with 其 of the caller, two handlers same class
     def add(tag, p):
@@ -121,7 +121,7 @@ def run(ctx):
                rule="raise kind {抛出异常, 抛出 custom class, index out of range, division by zero} x raise depth 0..3 x site {plain, in 每当, in 遍历, in 如果; inside the target expression of 遍历, the condition of 每当 / 如果 / 再如, a call argument, a declaration, a list literal, an 输出 value} "
                     "x handler placement per frame {none, matching, non-matching, non-matching then matching} x handler ending {输出, none, none with a valued last statement, raises again}, "
                     "each followed by probes (caller local, second identical call, callee local must be undefined); the same with the call chain crossing one or two module-file boundaries (main -> 模甲 -> 模乙, then a method of the main file must still be callable); plus constructor / handler-fault / "
-                    "receiver-restoration / recursion programs; DEEP chains: a raise at the bottom of 2300 (thorough: up to 12000) nested calls handled in a guarding method / the calling type method / the main program, then the caller's 其, its variables, a second call and the call depth (the specification runs depths 3, 11, 30 - outcome independent of the depth, checked - the interpreter the same program at the large depth; display trace, result, final error and end state compared, the statement trace is not). The ZnEval machine (TLC) gives the expected statement trace, call depth at every "
+                    "receiver-restoration / recursion programs; DEEP chains: a raise at the bottom of 2300 (thorough: up to 4500) nested calls handled in a guarding method / the calling type method / the main program, then the caller's 其, its variables, a second call and the call depth (the specification runs depths 3, 11, 30 - outcome independent of the depth, checked - the interpreter the same program at the large depth; display trace, result, final error and end state compared, the statement trace is not). The ZnEval machine (TLC) gives the expected statement trace, call depth at every "
                     "statement, display trace and outcome; the real run must match event by event. distinct = distinct matrix cells",
                **stats)
     return cov, ["message wording of built-in faults is not compared (any non-empty text)", "module files of the cross-module programs contain methods only (no module-level statements or types); custom exception types are raised in the main file only"]
